@@ -3,6 +3,11 @@ Property C07 — what annotate writes, the linter reads back.
 -/
 import ReuseVerif.Lemmas.HeaderParts
 import ReuseVerif.Lemmas.StyleTable
+import ReuseVerif.Lemmas.C07Achievable
+import ReuseVerif.Lemmas.C07Scan
+import ReuseVerif.Lemmas.C07Closed
+import ReuseVerif.Lemmas.C07Window
+import ReuseVerif.Theorems.C02
 
 namespace C07
 open Py Model Spec
@@ -102,8 +107,9 @@ theorem C07_never_success_without_readback (c : HdrCfg) (replace skip : Bool) (i
     evaluated per case by the driver — the copyright part needs no such hypothesis: it is
     proved from the line structure), then extraction of the **whole written text** yields
     everything requested and everything the replaced header declared.
-    Full statement (not proved): the same without `tagsCompose`, and with lint's 4096-byte window
-    (`hdr` must lie inside it: known finding c07-header-beyond-window). -/
+    Superseded by `C07_file` (`tagsCompose` replaced by a condition on the header block alone that is
+    proved sufficient), `C07_file_default` (no hypothesis on the block for the default template) and
+    `C07_file_window` (lint's 4096-byte window); kept because C09 uses it. -/
 theorem C07_file_partial (c : HdrCfg) (replace skip : Bool) (info : Extracted) (text t : Text)
     (hmerge : c.merge = false) (hnorm : ∀ x, c.normLic (c.normLic x) = c.normLic x)
     (hle : detectLineEnding text = ['\n'])
@@ -123,8 +129,384 @@ theorem C07_file_partial (c : HdrCfg) (replace skip : Bool) (info : Extracted) (
   rw [ht'] at hns htg ⊢
   exact ⟨declares_of_embed hpre hns htg hd.1, fun ho => declares_of_embed hpre hns htg (hd.2 ho)⟩
 
+/-- Table obligation: each of the two tags contains a character the generated END expression can
+    never consume — so END's `\\s*` can run on across line breaks, but never across a tag line. -/
+theorem C07_tags_unusable :
+    tagUnusable Generated.endRe Generated.licenseTag = true ∧
+    tagUnusable Generated.endRe Generated.contributorTag = true := by decide +kernel
+
+/-- **`tagsCompose` from a condition on the header block alone.**  If every line of the block is
+    *closed* for both tags (`tagLinesClosed`, decidable: a line holding `TAG[ \t]` yields, read on
+    its own, a non-empty tail-safe value — END matches the rest of the line and no tail of the
+    value can begin a run of terminators continuing on the next lines), then every tag value of
+    the block is a tag value of any text holding the block between line boundaries, provided no
+    ignore region opens in that text.  (The block ending `…MIT"` followed by `\n>` is not closed.) -/
+theorem C07_tags_compose (pre hdr post : Text) (hpre : pre = [] ∨ ∃ p, pre = p ++ ['\n'])
+    (hns : noIgnoreStart (pre ++ hdr ++ ['\n'] ++ post) = true)
+    (hcl : tagLinesClosed Generated.endRe hdr = true) :
+    tagsCompose hdr (pre ++ hdr ++ ['\n'] ++ post) = true := by
+  unfold noIgnoreStart at hns
+  simp only [Option.isNone_iff_eq_none] at hns
+  have hh : findSub Generated.ignoreStart hdr = none :=
+    findSub_none_infix (a := pre) (c := ['\n'] ++ post) (by simpa [List.append_assoc] using hns)
+  unfold tagLinesClosed at hcl
+  simp only [Bool.and_eq_true] at hcl
+  have e : pre ++ hdr ++ ['\n'] ++ post = pre ++ hdr ++ '\n' :: post := by simp
+  unfold tagsCompose extractRaw extractRawWith
+  simp only [filterIgnore_id hns, filterIgnore_id hh, Bool.and_eq_true, List.all_eq_true, List.contains_eq_mem,
+    decide_eq_true_eq, mem_dedup]
+  rw [e]
+  exact ⟨fun v hv => C07A.findTag_embed Generated.endRe _ (by decide) C07_tags_unusable.1 pre hdr post hpre hcl.1 v hv,
+    fun v hv => C07A.findTag_embed Generated.endRe _ (by decide) C07_tags_unusable.2 pre hdr post hpre hcl.2 v hv⟩
+
+/-- **The file (C07_file).**  `C07_file_partial` with its per-case hypothesis `tagsCompose`
+    (header block *and* whole text) replaced by a condition on the header block alone that is
+    proved to suffice: every line of the new header block is closed for both tags
+    (`tagLinesClosed`).  Then, for a file with "\n" line endings in which no ignore region opens,
+    extraction of the **whole written text** yields everything requested and everything the
+    replaced header declared — whatever stands above and below the header (any file content: the
+    scan of `findall` reaches every tag line of the block, `C07A.scan_reaches`).
+    Still not in the statement: lint's 4096-byte window (known finding c07-header-beyond-window). -/
+theorem C07_file (c : HdrCfg) (replace skip : Bool) (info : Extracted) (text t : Text)
+    (hmerge : c.merge = false) (hnorm : ∀ x, c.normLic (c.normLic x) = c.normLic x)
+    (hle : detectLineEnding text = ['\n'])
+    (h : annotateText c replace skip info text = .written t)
+    (hns : noIgnoreStart t = true)
+    (hclosed : ∀ p, headerParts c replace info (Py.replace text ['\n'] ['\n']) = .ok p →
+      tagLinesClosed Generated.endRe p.1 = true) :
+    Declares c.normLic (extractRaw t) info.cpr info.lic ∧
+    (let old := oldHeader c replace (Py.replace text ['\n'] ['\n'])
+     old ≠ [] → Declares c.normLic (extractRaw t) (extractRaw old).cpr (extractRaw old).lic) := by
+  apply C07_file_partial c replace skip info text t hmerge hnorm hle h hns
+  intro p hp
+  obtain ⟨p', hp', ht⟩ := annotateText_parts h
+  rw [hle] at hp' ht
+  have hpp : p' = p := by rw [hp] at hp'; cases hp'; rfl
+  subst hpp
+  obtain ⟨pre, post, hshape, hpre⟩ := placeHeader_shape p'.1 p'.2.1 p'.2.2.1 p'.2.2.2
+  have ht' : t = pre ++ p'.1 ++ ['\n'] ++ post := by
+    rw [ht, hshape]; unfold retranslate; simp
+  rw [ht'] at hns ⊢
+  exact C07_tags_compose pre p'.1 post hpre hns (hclosed p' hp)
+
+/-- **The file through lint's window (C07_file_window).**  What `reuse lint` extracts is not the
+    whole file but the decoded first 4096 bytes (`Model.window` / `decodedText`: UTF-8 with
+    replacement, line endings folded; the whole file when it holds a snippet marker).  If the
+    written text *up to the end of the header block* (`headPart`: what was above the header,
+    right-stripped, an empty line, the block) fits into 4096 bytes of UTF-8 and holds no carriage
+    return, then the extraction of the **decoded window of the written file** yields everything
+    requested and everything the replaced header declared — whatever follows the header, however
+    long, valid UTF-8 or not beyond the window's cut.  (`hfit` fails exactly for the known finding
+    c07-header-beyond-window.) -/
+theorem C07_file_window (c : HdrCfg) (replace skip : Bool) (info : Extracted) (text t : Text)
+    (hmerge : c.merge = false) (hnorm : ∀ x, c.normLic (c.normLic x) = c.normLic x)
+    (hle : detectLineEnding text = ['\n'])
+    (h : annotateText c replace skip info text = .written t)
+    (hclosed : ∀ p, headerParts c replace info (Py.replace text ['\n'] ['\n']) = .ok p →
+      tagLinesClosed Generated.endRe p.1 = true)
+    (hfit : ∀ p, headerParts c replace info (Py.replace text ['\n'] ['\n']) = .ok p →
+      (encodeUtf8 (headPart p.1 p.2.1)).length ≤ 4096 ∧ '\r' ∉ headPart p.1 p.2.1)
+    (hns : noIgnoreStart (decodedText (window (encodeUtf8 t))) = true) :
+    Declares c.normLic (extractRaw (decodedText (window (encodeUtf8 t)))) info.cpr info.lic ∧
+    (let old := oldHeader c replace (Py.replace text ['\n'] ['\n'])
+     old ≠ [] → Declares c.normLic (extractRaw (decodedText (window (encodeUtf8 t))))
+       (extractRaw old).cpr (extractRaw old).lic) := by
+  obtain ⟨p, hp, ht⟩ := annotateText_parts h
+  rw [hle] at hp ht
+  have hd := createHeader_declares hmerge hnorm (headerParts_created hp)
+  have ht' : t = placeHeader p.1 p.2.1 p.2.2.1 p.2.2.2 := by
+    rw [ht]; unfold retranslate; simp
+  obtain ⟨hlen, hcr⟩ := hfit p hp
+  obtain ⟨pre, tailText, hwin, hpre⟩ := C07A.window_head p.1 p.2.1 p.2.2.1 p.2.2.2 hcr hlen
+  rw [ht', hwin] at hns ⊢
+  have htg := C07_tags_compose pre p.1 tailText hpre hns (hclosed p hp)
+  exact ⟨declares_of_embed hpre hns htg hd.1, fun ho => declares_of_embed hpre hns htg (hd.2 ho)⟩
+
+/-- … and when moreover every expression found in the window parses, `reuse_info_of_file` (the
+    function `reuse lint` calls) reports exactly that extraction — so everything requested is in
+    lint's result for the file (contributors included as far as the window extraction shows them).
+    (`hparse` fails exactly for the known finding c07-unparseable-expression-elsewhere.) -/
+theorem C07_lint_reads_back (c : HdrCfg) (replace skip : Bool) (info : Extracted) (text t : Text)
+    (hmerge : c.merge = false) (hnorm : ∀ x, c.normLic (c.normLic x) = c.normLic x)
+    (hle : detectLineEnding text = ['\n'])
+    (h : annotateText c replace skip info text = .written t)
+    (hclosed : ∀ p, headerParts c replace info (Py.replace text ['\n'] ['\n']) = .ok p →
+      tagLinesClosed Generated.endRe p.1 = true)
+    (hfit : ∀ p, headerParts c replace info (Py.replace text ['\n'] ['\n']) = .ok p →
+      (encodeUtf8 (headPart p.1 p.2.1)).length ≤ 4096 ∧ '\r' ∉ headPart p.1 p.2.1)
+    (hns : noIgnoreStart (decodedText (window (encodeUtf8 t))) = true)
+    (hparse : ∀ x ∈ (extractRaw (decodedText (window (encodeUtf8 t)))).lic, c.parses x = true)
+    (hsome : info.cpr ≠ [] ∨ info.lic ≠ []) :
+    Declares c.normLic (infoOfFile c.parses (encodeUtf8 t)) info.cpr info.lic := by
+  have hd := (C07_file_window c replace skip info text t hmerge hnorm hle h hclosed hfit hns).1
+  have hne : ((extractRaw (decodedText (window (encodeUtf8 t)))).lic.isEmpty &&
+      (extractRaw (decodedText (window (encodeUtf8 t)))).cpr.isEmpty) = false := by
+    rcases hsome with hs | hs
+    · obtain ⟨x, xs, hx⟩ := List.exists_cons_of_ne_nil hs
+      have := hd.1 x (by rw [hx]; simp)
+      cases hc : (extractRaw (decodedText (window (encodeUtf8 t)))).cpr with
+      | nil => rw [hc] at this; cases this
+      | cons _ _ => simp
+    · obtain ⟨x, xs, hx⟩ := List.exists_cons_of_ne_nil hs
+      have := hd.2 x (by rw [hx]; simp)
+      cases hc : (extractRaw (decodedText (window (encodeUtf8 t)))).lic with
+      | nil => rw [hc] at this; simp at this
+      | cons _ _ => simp
+  rw [C02.C02_parseable_reports_all c.parses (encodeUtf8 t) hparse hne]
+  exact hd
+
 -- the hypotheses are satisfiable (the driver evaluates them on every case of the `filetie` stream)
 example : noIgnoreStart "# SPDX-License-Identifier: MIT\n".toList = true := by decide
+
+/-! ### The default template is achievable -/
+
+/-- Table obligation on the generated END expression: it is a starred expression and none of its
+    alternatives can begin with a line feed (so END, started right after a value that ends its
+    line, stops there). -/
+theorem C07_end_well_behaved : endWellBehaved Generated.endRe = true := by decide +kernel
+
+/-- **Table obligation (re-opened whenever a style is added or changed).**  Every style of the
+    generated style table — the two pseudo styles included — satisfies the side condition
+    `styleReadable` in every line mode it supports (default and forced multi-line): the marker in
+    front of a line, the marker an empty line becomes and the opening / closing lines of a multi-line
+    comment hold no line boundary and nothing that could begin `SPDX-…`, `Copyright`, `©` or
+    `REUSE-IgnoreStart`; the opening and closing lines are not empty.  No style fails it. -/
+theorem C07_styles_readable :
+    Generated.styles.all (fun s => [false, true].all fun fm =>
+      match lineMode s fm with
+      | some m => styleReadable s m
+      | none => true) = true := by decide +kernel
+
+/-- the generated END expression is a starred expression: it matches the empty text, is nullable,
+    and none of its alternatives begins with a line feed -/
+theorem C07_end_facts :
+    Re.Matches Generated.endRe [] ∧ canStart Generated.endRe '\n' = false ∧ nullable Generated.endRe = true := by
+  have hwb := C07_end_well_behaved
+  unfold endWellBehaved at hwb
+  simp only [Bool.and_eq_true, Bool.not_eq_true'] at hwb
+  obtain ⟨body, hbody⟩ := Option.isSome_iff_exists.mp hwb.1
+  have hstar := starBody_eq hbody
+  exact ⟨by rw [hstar]; exact .starNil, hwb.2, by rw [hstar]; rfl⟩
+
+/-- **What is written for the default template**: the header `_create_new_header` returns is —
+    line by line — the opening line of the comment (multi-line mode), the sorted copyright lines,
+    the contributor lines, an empty line, the licence lines, each behind the style's line prefix
+    (`C07A.headerLines` of `C07A.bodyLines`), and the closing line; the guard accepts it. -/
+theorem C07_default_header (c : HdrCfg) (info : Extracted) (m : LineMode)
+    (hr : c.render = defaultRender) (hc : c.commented = false)
+    (hm : lineMode c.style c.forceMulti = some m)
+    (hstyle : styleReadable c.style m = true)
+    (hreq : wfRequest Generated.endRe c.style m info = true) :
+    createNewHeader c info = .ok (join ['\n'] (C07A.headerLines c.style m
+      (C07A.bodyLines (sortTexts info.cpr) (sortTexts info.con) (sortTexts info.lic)))) ∧
+    extractRaw (join ['\n'] (C07A.headerLines c.style m
+      (C07A.bodyLines (sortTexts info.cpr) (sortTexts info.con) (sortTexts info.lic)))) =
+      ⟨dedup (sortTexts info.lic), dedup (sortTexts info.cpr), dedup (sortTexts info.con)⟩ := by
+  have sf := C07A.styleFacts hstyle
+  have rq := C07A.reqOK_of_wfRequest hreq
+  obtain ⟨hnil, hcs, hnull⟩ := C07_end_facts
+  have hrend := C07A.renderedHeader_default c info m hr hc hm sf rq
+  have hext := C07A.extract_header Generated.endRe hnil hcs hnull sf rq
+  refine ⟨?_, hext⟩
+  rw [createNewHeader_eq, hrend]
+  have hg : guardOk c info (join ['\n'] (C07A.headerLines c.style m
+      (C07A.bodyLines (sortTexts info.cpr) (sortTexts info.con) (sortTexts info.lic)))) = true := by
+    unfold guardOk
+    have hext' : extractRaw (join ['\n'] (C07A.headerLines c.style m
+        (C07A.bodyLines (sortTexts info.cpr) (sortTexts info.con) (sortTexts info.lic)))) = _ := hext
+    rw [hext']
+    simp only [Bool.and_eq_true]
+    refine ⟨sameSet_iff.mpr fun x => ?_, sameSet_iff.mpr fun x => ?_⟩
+    · rw [mem_dedup, C07A.mem_sortTexts]
+    · simp only [List.mem_map, mem_dedup, C07A.mem_sortTexts]
+  simp [hg]
+
+/-- **The default template is achievable — general form.**  For *any* style `c.style` and line
+    mode `m` it supports with `styleReadable` (a decidable condition on the markers), the bundled
+    default template and every request covered by `wfRequest` (see `Spec/Achievable.lean`):
+    `_create_new_header` returns a header (the guard accepts), and the tool's own extraction of
+    that header yields exactly the requested licence expressions, copyright lines and
+    contributors (as duplicate-free lists in sorted order). -/
+theorem C07_default_achievable_style (c : HdrCfg) (info : Extracted) (m : LineMode)
+    (hr : c.render = defaultRender) (hc : c.commented = false)
+    (hm : lineMode c.style c.forceMulti = some m)
+    (hstyle : styleReadable c.style m = true)
+    (hreq : wfRequest Generated.endRe c.style m info = true) :
+    ∃ h, createNewHeader c info = .ok h ∧
+      extractRaw h = ⟨dedup (sortTexts info.lic), dedup (sortTexts info.cpr), dedup (sortTexts info.con)⟩ :=
+  ⟨_, (C07_default_header c info m hr hc hm hstyle hreq).1, (C07_default_header c info m hr hc hm hstyle hreq).2⟩
+
+/-- **C07_default_achievable.**  For the bundled default template, every style of the generated
+    style table and every line mode the style supports (single-line, multi-line incl. forced; the
+    text as it is for the two pseudo styles, i.e. `FILE.license`), and every request covered by
+    `wfRequest`: `_create_new_header` succeeds, and what the tool's own reader extracts from the
+    header it returns is exactly the request — copyright lines, licence expressions and
+    contributors.
+
+    The request hypotheses (`wfRequest`, decidable): each copyright line is a notice the reader
+    reads back as itself (`noticeSelf`; every line built from a generated prefix, a year form and
+    a well-formed holder is one: `C07_notice_built`) and contains neither tag; each licence
+    expression / contributor is stripped, not empty, has no tail that could begin a run of comment
+    terminators (`tailSafe`, computed with derivatives of the generated END expression) and does
+    not end like the mirrored frame of its line prefix (`frameFree`: e.g. ` c` under Fortran's `c`
+    marker); its line contains neither the other tag nor a copyright notice; no rendered line
+    contains a line boundary, `REUSE-IgnoreStart` or — in multi-line mode — the comment terminator
+    (for which `create_comment` raises).  Each of these is necessary: dropping it gives a request
+    the code refuses or reads back differently. -/
+theorem C07_default_achievable (c : HdrCfg) (info : Extracted) (m : LineMode)
+    (hs : c.style ∈ Generated.styles)
+    (hr : c.render = defaultRender) (hc : c.commented = false)
+    (hm : lineMode c.style c.forceMulti = some m)
+    (hreq : wfRequest Generated.endRe c.style m info = true) :
+    ∃ h, createNewHeader c info = .ok h ∧
+      (∀ x, x ∈ (extractRaw h).cpr ↔ x ∈ info.cpr) ∧
+      (∀ x, x ∈ (extractRaw h).lic ↔ x ∈ info.lic) ∧
+      (∀ x, x ∈ (extractRaw h).con ↔ x ∈ info.con) := by
+  have htab := C07_styles_readable
+  rw [List.all_eq_true] at htab
+  have h1 := htab c.style hs
+  rw [List.all_eq_true] at h1
+  have h2 := h1 c.forceMulti (by cases c.forceMulti <;> simp)
+  rw [hm] at h2
+  obtain ⟨h, hok, hext⟩ := C07_default_achievable_style c info m hr hc hm h2 hreq
+  refine ⟨h, hok, ?_, ?_, ?_⟩ <;> intro x <;> rw [hext] <;> simp only [mem_dedup, C07A.mem_sortTexts]
+
+/-- Every copyright line `make_copyright_line` builds from one of the ten generated prefixes, a
+    year form and a holder satisfying C02's `WFNotice` (no line prefix, no trail) is a notice the
+    reader reads back as itself, provided it is stripped (the holder does not end in white space). -/
+theorem C07_notice_built (x : Text × CPat × Text) (hx : x ∈ prefixShapes) (y : YearForm) (h : Text)
+    (hwf : WFNotice Generated.endRe x y h [] [] = true) (hs : isStripped (builtLine x.1 y h) = true) :
+    noticeSelf Generated.endRe (builtLine x.1 y h) = true := by
+  have := C02.C02_copyright_exact_partial Generated.endRe x hx y h [] [] hwf
+  simp only [List.nil_append, List.append_nil] at this
+  unfold noticeSelf
+  rw [this]
+  unfold isStripped at hs
+  simp only [beq_iff_eq] at hs
+  simp [hs]
+
+/-- the style condition from the table -/
+theorem C07_style_of_table (s : Generated.Style) (hs : s ∈ Generated.styles) (fm : Bool) (m : LineMode)
+    (hm : lineMode s fm = some m) : styleReadable s m = true := by
+  have htab := C07_styles_readable
+  rw [List.all_eq_true] at htab
+  have h1 := htab s hs
+  rw [List.all_eq_true] at h1
+  have h2 := h1 fm (by cases fm <;> simp)
+  rw [hm] at h2
+  exact h2
+
+/-- **The file, default template (no hypothesis on the header block left).**  `reuse annotate`
+    with the bundled template on a file that has no header yet (or `--no-replace`), any style of the
+    table in any line mode it supports, a request covered by `wfRequest`, "\n" line endings: when the
+    text-level `add_header_to_file` writes `t` and no ignore region opens in `t`, then extraction of
+    the **whole written text** — whatever the file held — yields every requested copyright line,
+    every requested licence expression (verbatim, not only up to normalisation) and every
+    requested contributor.  (`tagLinesClosed` of `C07_file` is *proved* for this header:
+    `C07A.default_header_closed`.)  Not in the statement: lint's 4096-byte window. -/
+theorem C07_file_default (c : HdrCfg) (replace skip : Bool) (info : Extracted) (text t : Text) (m : LineMode)
+    (hs : c.style ∈ Generated.styles) (hr : c.render = defaultRender) (hc : c.commented = false)
+    (hm : lineMode c.style c.forceMulti = some m) (hmerge : c.merge = false)
+    (hreq : wfRequest Generated.endRe c.style m info = true)
+    (hle : detectLineEnding text = ['\n'])
+    (hold : oldHeader c replace (Py.replace text ['\n'] ['\n']) = [])
+    (h : annotateText c replace skip info text = .written t)
+    (hns : noIgnoreStart t = true) :
+    (∀ x ∈ info.cpr, x ∈ (extractRaw t).cpr) ∧ (∀ x ∈ info.lic, x ∈ (extractRaw t).lic) ∧
+    (∀ x ∈ info.con, x ∈ (extractRaw t).con) := by
+  have hstyle := C07_style_of_table c.style hs c.forceMulti m hm
+  obtain ⟨hnew, hext⟩ := C07_default_header c info m hr hc hm hstyle hreq
+  obtain ⟨p, hp, ht⟩ := annotateText_parts h
+  rw [hle] at hp ht
+  have hcreated := headerParts_created hp
+  rw [hold] at hcreated
+  have hp1 : p.1 = join ['\n'] (C07A.headerLines c.style m
+      (C07A.bodyLines (sortTexts info.cpr) (sortTexts info.con) (sortTexts info.lic))) := by
+    unfold createHeader at hcreated
+    simp only [List.isEmpty_nil, if_true, hmerge, Bool.false_eq_true, if_false] at hcreated
+    rw [hnew] at hcreated
+    exact (Except.ok.inj hcreated).symm
+  obtain ⟨pre, post, hshape, hpre⟩ := placeHeader_shape p.1 p.2.1 p.2.2.1 p.2.2.2
+  have ht' : t = pre ++ p.1 ++ ['\n'] ++ post := by
+    rw [ht, hshape]; unfold retranslate; simp
+  have sf := C07A.styleFacts hstyle
+  have rq := C07A.reqOK_of_wfRequest hreq
+  have hclosed : tagLinesClosed Generated.endRe p.1 = true := by
+    rw [hp1]; exact C07A.default_header_closed Generated.endRe C07_end_facts.1 sf rq
+  rw [ht'] at hns ⊢
+  have hcomp := C07_tags_compose pre p.1 post hpre hns hclosed
+  unfold tagsCompose at hcomp
+  simp only [Bool.and_eq_true, List.all_eq_true, List.contains_eq_mem, decide_eq_true_eq] at hcomp
+  have hns' := hns
+  unfold noIgnoreStart at hns'
+  simp only [Option.isNone_iff_eq_none] at hns'
+  rw [← hp1] at hext
+  refine ⟨fun x hx => ?_, fun x hx => ?_, fun x hx => ?_⟩
+  · apply extractRaw_cpr_embed pre p.1 post hpre hns' x
+    rw [hext]; simp only [mem_dedup, C07A.mem_sortTexts]; exact hx
+  · apply hcomp.1
+    rw [hext]; simp only [mem_dedup, C07A.mem_sortTexts]; exact hx
+  · apply hcomp.2
+    rw [hext]; simp only [mem_dedup, C07A.mem_sortTexts]; exact hx
+
+/-- a concrete notice with an e-mail address (its holder ends in `>`, a character END can consume,
+    but no tail of it can begin a run of terminators) -/
+theorem C07_example_notice :
+    noticeSelf Generated.endRe "SPDX-FileCopyrightText: 2020 Jane Doe <jane@example.org>".toList = true := by
+  have hsafe : tailSafe Generated.endRe "Jane Doe <jane@example.org>".toList = true := by decide +kernel
+  have hs0 := C07A.noEndSuffix_of_tailSafe_holder Generated.endRe _ (by decide +kernel) hsafe
+  have hs := C07A.noEndSuffixC_of_tailSafe Generated.endRe "Jane Doe <jane@example.org>".toList []
+    (by decide +kernel) hsafe
+  have he : endAccepts Generated.endRe [] = true := by
+    have hstar : starBody Generated.endRe = some ((starBody Generated.endRe).getD .eps) := rfl
+    have := endAccepts_pieces ((starBody Generated.endRe).getD .eps) [] (by simp)
+    rw [← starBody_eq hstar] at this
+    exact this
+  have hwf : WFNotice Generated.endRe ("SPDX-FileCopyrightText:".toList, .spdx, []) (.single "2020".toList)
+      "Jane Doe <jane@example.org>".toList [] [] = true := by
+    simp only [WFNotice, WFHolder, he, hs, hs0, Bool.and_true]
+    decide +kernel
+  exact C07_notice_built _ (by decide) _ _ hwf (by decide +kernel)
+
+/-- the request of the examples: two licence expressions, one notice, one contributor -/
+def exampleRequest : Extracted :=
+  ⟨["MIT".toList, "GPL-2.0-or-later OR (Apache-2.0 AND BSD-3-Clause)".toList],
+   ["SPDX-FileCopyrightText: 2020 Jane Doe <jane@example.org>".toList],
+   ["Jane Doe <jane@example.org>".toList]⟩
+
+/-- the example request is covered under the Python style (single-line) -/
+theorem C07_example_request :
+    wfRequest Generated.endRe (C07A.styleNamed "PythonCommentStyle") .single exampleRequest = true := by
+  simp only [wfRequest, exampleRequest, List.all_cons, List.all_nil, Bool.and_true, C07_example_notice, Bool.true_and]
+  decide +kernel
+
+-- the hypotheses are satisfiable: Python (single-line), C (multi-line, forced), `FILE.license` (as it is)
+example : ∃ c : HdrCfg, c.style ∈ Generated.styles ∧ c.render = defaultRender ∧ c.commented = false ∧
+    lineMode c.style c.forceMulti = some .single ∧ wfRequest Generated.endRe c.style .single exampleRequest = true :=
+  ⟨⟨C07A.styleNamed "PythonCommentStyle", defaultRender, false, false, false, fun _ => true, id⟩,
+    C07A.styleNamed_mem "PythonCommentStyle" (by decide +kernel), rfl, rfl, by decide +kernel, C07_example_request⟩
+-- the hypothesis `tagLinesClosed` of C07_file / C07_file_window is satisfiable: the header of the example request
+example : tagLinesClosed Generated.endRe (join ['\n'] (C07A.headerLines (C07A.styleNamed "PythonCommentStyle") .single
+    (C07A.bodyLines (sortTexts exampleRequest.cpr) (sortTexts exampleRequest.con) (sortTexts exampleRequest.lic)))) = true :=
+  C07A.default_header_closed Generated.endRe C07_end_facts.1 (C07A.styleFacts (by decide +kernel))
+    (C07A.reqOK_of_wfRequest C07_example_request)
+example : ∃ c : HdrCfg, c.style ∈ Generated.styles ∧ c.render = defaultRender ∧ c.commented = false ∧
+    lineMode c.style c.forceMulti = some .multi ∧ wfRequest Generated.endRe c.style .multi exampleRequest = true := by
+  refine ⟨⟨C07A.styleNamed "CppCommentStyle", defaultRender, false, true, false, fun _ => true, id⟩,
+    C07A.styleNamed_mem "CppCommentStyle" (by decide +kernel), rfl, rfl, by decide +kernel, ?_⟩
+  simp only [wfRequest, exampleRequest, List.all_cons, List.all_nil, Bool.and_true, C07_example_notice, Bool.true_and]
+  decide +kernel
+example : ∃ c : HdrCfg, c.style ∈ Generated.styles ∧ c.render = defaultRender ∧ c.commented = false ∧
+    lineMode c.style c.forceMulti = some .plain ∧ wfRequest Generated.endRe c.style .plain exampleRequest = true := by
+  refine ⟨⟨C07A.styleNamed "EmptyCommentStyle", defaultRender, false, false, false, fun _ => true, id⟩,
+    C07A.styleNamed_mem "EmptyCommentStyle" (by decide +kernel), rfl, rfl, by decide +kernel, ?_⟩
+  simp only [wfRequest, exampleRequest, List.all_cons, List.all_nil, Bool.and_true, C07_example_notice, Bool.true_and]
+  decide +kernel
+-- … and the side conditions exclude what they should: `MIT"` (the line could run on into `\n>`), a
+-- value ending in the Fortran frame ` c`, a contributor that is a copyright notice
+example : tailSafe Generated.endRe "MIT\"".toList = false := by decide +kernel
+example : frameFree (linePrefix (C07A.styleNamed "FortranCommentStyle") .single) "Vitamin c".toList = false := by
+  decide +kernel
 
 /-! ### File types: the two tables and the routing to `FILE.license` -/
 
